@@ -126,6 +126,7 @@ class World:
         self.last_dec = {}
         self.last_res = {}
         self.nfail = 0
+        self.nrerep = 0
         self.dead = None  # (Violation-ish tuple) when an exception escaped
         self.trace = []   # observations
 
@@ -184,13 +185,18 @@ class World:
             if self.spec.get("flood") and len(self.trials) < self.T:
                 # many workers asking for work before any result comes back: only suggests until T trials exist
                 return evs
-        for t in sorted(run):
+        order = sorted(run)
+        if self.spec.get("newest_first") and order:
+            order = order[-1:]   # one adversarial schedule: the most recently started job always reports first
+        for t in order:
             if self.level[t] < self.script_end(t):
                 evs.append(("R", t))
             elif self.last_dec.get(t) in (None, "CONTINUE") and self.last_res.get(t) is not None:
                 evs.append(("C", t))
             if self.nfail < self.fail_budget:
                 evs.append(("F", t))
+            if self.nrerep < self.spec.get("rereport", 0) and self.level[t] >= 1 and self.last_dec.get(t) == "CONTINUE":
+                evs.append(("X", t))   # the job reports its current level once more (e.g. after training and after validation)
         return evs
 
     # -- transitions
@@ -205,6 +211,10 @@ class World:
             if kind == "S":
                 obs = self._suggest(ev[1])
             elif kind == "R":
+                obs = self._report(ev[1])
+            elif kind == "X":
+                self.nrerep += 1
+                self.level[ev[1]] -= 1
                 obs = self._report(ev[1])
             elif kind == "C":
                 t = ev[1]
@@ -285,7 +295,7 @@ class World:
 
     def world_digest(self):
         return repr((sorted(self.level.items()), sorted(self.status.items()), sorted(self.run_idx.items()),
-                     sorted((k, v) for k, v in self.last_dec.items()), self.nfail,
+                     sorted((k, v) for k, v in self.last_dec.items()), self.nfail, self.nrerep,
                      sorted((t, _freeze(tr.config)) for t, tr in self.trials.items())))
 
     def digest(self):
